@@ -18,29 +18,62 @@
 enum { O_DAISY, O_DFLT, O_F, NOBS };
 static const char *const obs_name[NOBS] = {"daisy", "dflt", "%F"};
 
-#define RANGE_QUICK	30
-#define RANGE_THOROUGH	260
-#define MAXN		1024
-static int ns[MAXN], nn;
+/* the closed form lib/bizda.c:__get_d_equiv is periodic in n mod 5 but has
+ * magic offsets (384): the counts go well beyond them */
+#define RANGE_QUICK	30	/* quick: on all days */
+#define RANGE_WIDE	800	/* quick: on the days of the four 8-year windows; thorough: on all days */
+#define MAXN		2048
+static int ns[MAXN], nn;		/* on all days */
 static struct durs_s nd[MAXN];
+static int ws[MAXN], nw;		/* quick: additionally on the window days */
+static struct durs_s wd[MAXN];
+static const int bigs[] = {383, 384, 385, 386, 389, 390, 391, 500, 640, 1000, 1279, 1280, 1281, 2600, 5000, 10000};
+#define NBIGS	((int)(sizeof(bigs) / sizeof(*bigs)))
+
+static void
+mk_one(struct durs_s *d, int n)
+{
+	char txt[32];
+	snprintf(txt, sizeof(txt), "%+db", n);
+	if (mk_durs(d, txt) < 0 || d->n != 1) {
+		fprintf(stderr, "BROKEN-CHECK: duration text '%s' not accepted by dt_io_strpdtdur\n", txt);
+		exit(3);
+	}
+}
 
 static void
 mk_tables(void)
 {
-	int range = ex.thorough ? RANGE_THOROUGH : RANGE_QUICK;
-	char txt[32];
+	int range = ex.thorough ? RANGE_WIDE : RANGE_QUICK;
 
 	/* simplest first: +1, -1, +2, -2, ... (n != 0 by the statement) */
 	for (int n = 1; n <= range; n++) {
 		ns[nn++] = n;
 		ns[nn++] = -n;
 	}
-	for (int i = 0; i < nn; i++) {
-		snprintf(txt, sizeof(txt), "%+db", ns[i]);
-		if (mk_durs(&nd[i], txt) < 0 || nd[i].n != 1) {
-			fprintf(stderr, "BROKEN-CHECK: duration text '%s' not accepted by dt_io_strpdtdur\n", txt);
-			exit(3);
+	for (int i = 0; i < NBIGS; i++) {
+		if (bigs[i] > range) {
+			ns[nn++] = bigs[i];
+			ns[nn++] = -bigs[i];
 		}
+	}
+	if (!ex.thorough) {
+		for (int n = range + 1; n <= RANGE_WIDE; n++) {
+			int dup = 0;
+			for (int i = 0; i < NBIGS; i++) {
+				dup |= bigs[i] == n;
+			}
+			if (!dup) {
+				ws[nw++] = n;
+				ws[nw++] = -n;
+			}
+		}
+	}
+	for (int i = 0; i < nn; i++) {
+		mk_one(&nd[i], ns[i]);
+	}
+	for (int i = 0; i < nw; i++) {
+		mk_one(&wd[i], ws[i]);
 	}
 }
 
@@ -48,7 +81,7 @@ static uint64_t *c_eval, *c_trans, *c_nontriv, *c_skip_range, *c_memo, *c_wkstar
 
 /* see c03_add.c: a result value already observed to agree for the same
  * (calendar, target) in this year slice is not observed again */
-#define MEMO_PAD	1024
+#define MEMO_PAD	2048
 #define MEMO_SZ		(366 + 2 * MEMO_PAD)
 static struct dt_dt_s memo_v[NCAL][MEMO_SZ];
 static uint8_t memo_ok[NCAL][MEMO_SZ];
@@ -158,7 +191,7 @@ struct bind_s {
 	const char *ofmt;
 };
 static const struct bind_s binds[] = {
-	{C_YMD, "+1b", NULL}, {C_YMD, "-1b", NULL}, {C_YMD, "+23b", NULL}, {C_YMD, "-260b", NULL},
+	{C_YMD, "+1b", NULL}, {C_YMD, "-1b", NULL}, {C_YMD, "+23b", NULL}, {C_YMD, "-260b", NULL}, {C_YMD, "-400b", NULL},
 	{C_YD, "+1b", NULL}, {C_YD, "-5b", NULL},
 	{C_YMCW, "+1b", NULL}, {C_YMCW, "-5b", NULL},
 	{C_BIZDA, "+1b", NULL}, {C_BIZDA, "-23b", NULL},
@@ -169,9 +202,9 @@ static const struct bind_s binds[] = {
 	{C_YMCW, "-1b", NULL}, {C_YMCW, "+5b", NULL}, {C_YMCW, "+23b", NULL}, {C_YMCW, "-260b", NULL},
 	{C_BIZDA, "-1b", NULL}, {C_BIZDA, "+5b", NULL}, {C_BIZDA, "-5b", NULL}, {C_BIZDA, "+260b", NULL},
 	{C_BIZDA, "+7b", "%F"}, {C_YWD, "+5b", "%F"},
-	{C_LDN, "+1b", NULL}, {C_JDN, "-1b", NULL}, {C_MDN, "+5b", NULL}, {C_LDN, "-23b", "%F"},
+	{C_YD, "-400b", NULL}, {C_LDN, "-1280b", NULL}, {C_YMD, "+10000b", NULL}, {C_LDN, "+1b", NULL}, {C_JDN, "-1b", NULL}, {C_MDN, "+5b", NULL}, {C_LDN, "-23b", "%F"},
 };
-#define NBIND_QUICK	12
+#define NBIND_QUICK	13
 #define NBIND		((int)(sizeof(binds) / sizeof(*binds)))
 
 static void
@@ -353,8 +386,9 @@ main(int argc, char *argv[])
 		"the input's calendar (parsed fields) and as %%F; a result whose 16 bytes equal a value already observed to agree for the same (calendar, target) "
 		"in the same year slice is not observed again (counted). reading: results outside 1601..4095 are outside the property. "
 		"non-trivial = the start is a weekend day, or a weekend lies between start and target, or the month changes", NCAL);
-	ex_meta("bound", "%s tier: all 911,280 days x %d calendars x n in [-%d,%d] without 0; binding runs: %d",
-		ex.thorough ? "thorough" : "quick", NCAL, ex.thorough ? RANGE_THOROUGH : RANGE_QUICK, ex.thorough ? RANGE_THOROUGH : RANGE_QUICK,
+	ex_meta("bound", "%s tier: all 911,280 days x %d calendars x n in +-[1,%d] and +-{383,384,385,386,389,390,391,500,640,1000,1279,1280,1281,2600,5000,10000}%s; binding runs: %d",
+		ex.thorough ? "thorough" : "quick", NCAL, ex.thorough ? RANGE_WIDE : RANGE_QUICK,
+		ex.thorough ? "" : "; the days of the four 8-year windows 1601-08 1897-1904 1997-2004 4088-95 (their years start on every weekday, leap and non-leap) x all n in +-[1,800]",
 		ex.thorough ? NBIND : NBIND_QUICK);
 	ex_meta("ord", "ordered coordinate of a failure class (lo/hi in findings) = day ordinal rd of the TARGET state (0 = 1601-01-01; day count - 1); binding classes: rd of the input line");
 	ex_meta("binding", "dadd binary of the same build, all 911,280 days (bizda: the Monday-Friday days) on stdin per (calendar, +-Nb[, -f]) entry, "
@@ -386,11 +420,16 @@ main(int argc, char *argv[])
 				for (int i = 0; i < nn; i++) {
 					do_case(p, c, v, ns[i], &nd[i], 0);
 				}
+				if (in_w8(p->y)) {
+					for (int i = 0; i < nw; i++) {
+						do_case(p, c, v, ws[i], &wd[i], 0);
+					}
+				}
 				++*c_traces;
 			}
 			if (ex_want_sample()) {
 				ex_sample("state %04d-%02d-%02d %s (ISO %04d-W%02d-%d, bd %d%s) x %d calendars x %d signed business-day counts",
-					  p->y, p->m, p->d, rc_abbr_wday[p->wd], p->isoy, p->isow, p->wd, p->bd, p->isbd ? "" : ", weekend", NCAL, nn);
+					  p->y, p->m, p->d, rc_abbr_wday[p->wd], p->isoy, p->isow, p->wd, p->bd, p->isbd ? "" : ", weekend", NCAL, nn + (in_w8(p->y) ? nw : 0));
 			}
 		}
 	}
